@@ -386,8 +386,31 @@ func (rn *runner) streamErrDec(g *gen) {
 
 // ---------- translog stream: Exp, Ln, Log10, Pow (C12) ----------
 
+// constsCases reports the pre-rounded tables of ln(10) and 1/ln(10) as the package holds them: the model
+// derives them from the digit strings (rounding half-up to 1, 2, 4, ... digits) and must agree.
+func (rn *runner) constsCases() {
+	_, dump := apd.VerifSnapshot()
+	for _, item := range strings.Split(dump, ";") {
+		eq := strings.Index(item, "=")
+		if eq < 0 || !(strings.HasPrefix(item, "ln10.") || strings.HasPrefix(item, "invLn10.")) {
+			continue
+		}
+		name, val := item[:eq], item[eq+1:]
+		f := strings.Split(val, "/") // form/negative/exponent/coefficient
+		if len(f) != 4 {
+			continue
+		}
+		neg := "0"
+		if f[1] == "true" {
+			neg = "1"
+		}
+		rn.rawCase("consts", name, true, "consts", func() string { return "f:" + neg + ":" + f[3] + ":" + f[2] })
+	}
+}
+
 func (rn *runner) streamTransLog(g *gen) {
 	one := big.NewInt(1)
+	rn.constsCases()
 	for i := 0; i < rn.n; i++ {
 		c := g.rootCtx()
 		if c.Precision > 34 {
